@@ -51,7 +51,7 @@ func newEngine() (*Engine, error) {
 	e := &Engine{atDeclared: map[string]bool{}, prog: prog, pkgs: map[string]*ssa.Package{}, d: newDecls(), structs: map[string]*StructInfo{}, tags: map[string]int{},
 		boxed: map[string]bool{}, strlits: map[string]string{}, funcs: map[string]*ssa.Function{}, contracts: map[string]*Contract{},
 		ifaceContracts: map[string]*Contract{}, specFuncs: map[string]*SpecFunc{}, ghosts: map[string]*GhostDecl{}, chans: map[string]*ChanDecl{},
-		notes: map[string]bool{}, modsets: map[*ssa.Function]*ModSet{}, externs: map[string]externFn{}, heapSorts: map[string]string{},
+		notes: map[string]bool{}, modsets: map[*ssa.Function]*ModSet{}, externs: map[string]externFn{}, heapSorts: map[string]string{}, trivNames: map[string]bool{},
 		loopCache: map[*ssa.Function]map[*ssa.BasicBlock]*loopInfo{}, usedExterns: map[string]bool{}, usedContracts: map[string]bool{},
 		externMods: map[string][]string{}, pureExterns: map[string]bool{}, inlineExtern: map[string]bool{}, ifaceIDs: map[string]int{},
 		extFuncs: map[string]string{}, fset: fset, evalExt: map[string]map[string]bool{}, evalSym: map[string]string{}, globalConst: map[string]string{}, srcCache: map[string][]string{}, hookHits: map[string]bool{}, sendSites: map[string][]token.Pos{}}
@@ -704,6 +704,9 @@ func (e *Engine) checkExpected(id string, have []string) string {
 	}
 	hs := map[string]bool{}
 	for _, h := range have {
+		hs[stripOrd(h)] = true
+	}
+	for h := range e.trivNames {
 		hs[stripOrd(h)] = true
 	}
 	var missing []string
